@@ -342,7 +342,7 @@ def judge(hid, line, lifetimes, h, mline, synth_val, project="full"):
                   any(len([o for o in ops if o.startswith("I:") and o.split(":")[1] == t]) > 1 for ops in lifetimes for t in set(o.split(":")[1] for o in ops if o.startswith("I:"))))
     return J
 
-MONITOR_ONLY_ABOVE = 150
+MONITOR_ONLY_ABOVE = 400
 
 def check_histories(res, prop_key, n, seed, project, max_lifetimes=3, extra_lines=None, lifo=1, gen=None, novals=False, nodiff=False):
     """run n random histories (+ corpus) and fold the judgement for one property into `res`"""
@@ -361,7 +361,7 @@ def check_histories(res, prop_key, n, seed, project, max_lifetimes=3, extra_line
         if hid not in H: res.broke("correspondence: no output for history", line); continue
         if (H[hid].get("child") or "").startswith("skipped"): skipped.append(hid); continue
         ml, sv, addr = reallib.model_line(hid, H[hid], lts, lifo=lifo)
-        # very long lifetimes (hundreds of live fakes): the extracted model's cost grows faster than linearly with the number of live patches, so
+        # very long lifetimes (hundreds of live fakes): beyond that size the extracted model (memory as a chain of writes, unary call counter) takes minutes per history, so
         # these histories are judged by the monitors alone (recorded in the evidence); shorter ones of the same shape go through the model
         if sum(len(o) for o in lts) > MONITOR_ONLY_ABOVE: monitor_only.add(hid)
         else: mlines.append(ml)
